@@ -2,13 +2,12 @@ import CookModel.Basic.Arith
 import CookModel.Side.StdMetaText
 import CookModel.Gen.StdMetaConsts
 /-
-  Model of src/metadata.rs (as repaired by fixes/0001, 0002 of C13): the interpretation of the
+  Model of src/metadata.rs (as repaired by fixes/0001–0003 of C13): the interpretation of the
   standard metadata values and the parse-time check of the analysis.
 
-  Numeric code is written once over `[Arith α]`; `lit` is `str::parse::<f64>` on a text the
-  model's own syntax function (`parseF64Syn`) accepts as a finite decimal literal:
-    * `α := Rat`   : `ratLit`, the exact decimal value (theorems),
-    * `α := Float` : a table literal ↦ f64 bits computed by the harness with `str::parse` (driver).
+  Numeric code is written once over `[Arith α]`; a decimal literal accepted by the model's own
+  syntax function (`parseF64Syn`, the grammar of `f64::from_str`) is evaluated with
+  `Arith.ofDecimal` (exact over `Rat`, correctly rounded over `Float`).
   Errors are kept only as far as the code looks at them: `MetadataError::BadType` versus
   anything else (`value_as_time` branches on it); everything else is `none`.
 -/
@@ -159,17 +158,17 @@ def isUrl (alpha : Char → Bool) (s : Str) : Bool :=
     else if (urlHost r.2).isEmpty || (urlHost r.2).any isWs then false
     else true
 
-/-- the `Name <Url>` branch of `NameAndUrl::parse` -/
-def angleForm (s : Str) : Option (Str × Str) :=
+/-- the `Name <Url>` branch of `NameAndUrl::parse` (fix 0003: the URL is validated as documented) -/
+def angleForm (alpha : Char → Bool) (s : Str) : Option (Str × Str) :=
   match stripSuffixChar '>' (trimAsciiEnd s) with
   | none => none
   | some s1 => match splitOnce isLt s1 with
     | none => none
-    | some r => if !(trim r.2).isEmpty && !r.2.any isAngle then some r else none
+    | some r => if !r.2.any isAngle && isUrl alpha (trim r.2) then some r else none
 
 /-- `NameAndUrl::parse` -/
 def parseNameUrl (alpha : Char → Bool) (s : Str) : NameUrl :=
-  match angleForm s with
+  match angleForm alpha s with
   | some r => NameUrl.new (some r.1) (some r.2)
   | none => if isUrl alpha s then NameUrl.new none (some s) else NameUrl.new (some s) none
 
@@ -212,17 +211,23 @@ inductive PF (α : Type) where
   | nonfinite
   | val (x : α)
 
-def parseF64 {α} (lit : Str → Option α) (s : Str) : PF α :=
+section
+variable {α : Type} [Arith α]
+
+/-- value of a decimal literal: ±(int.frac)·10^exp -/
+def decValue (d : DecLit) : α :=
+  let m := natOfDigits (d.int ++ d.frac)
+  let k : Int := d.exp - (d.frac.length : Int)
+  let x : α := if 0 ≤ k then Arith.ofDecimal (m * 10 ^ k.toNat) 0 else Arith.ofDecimal m (-k).toNat
+  if d.neg then Arith.neg x else x
+
+/-- `str::parse::<f64>()` -/
+def parseF64 (s : Str) : PF α :=
   match parseF64Syn s with
   | none => .err
   | some .nan => .nonfinite
   | some (.inf _) => .nonfinite
-  | some (.dec _) => match lit s with
-    | some x => .val x
-    | none => .err
-
-section
-variable {α : Type} [Arith α]
+  | some (.dec d) => .val (decValue d)
 
 /-- `round_minutes` (fix 0001): whole minutes or nothing, never a saturated cast -/
 def roundMinutes (x : α) : Option Nat :=
@@ -264,15 +269,15 @@ def toMinutes (c : Conv α) (v : α) (unit : Str) : Option α :=
 def isNumCh (c : Char) : Bool := isDigit c || c = '.'
 
 /-- one `number`/`unit` pair: parse the number, convert, add -/
-def pairStep (lit : Str → Option α) (c : Conv α) (total : α) (number unit : Str) : Option α :=
-  match parseF64 lit number with
+def pairStep (c : Conv α) (total : α) (number unit : Str) : Option α :=
+  match parseF64 (α := α) number with
   | .val x => match toMinutes c x unit with
     | some m => some (total + m)
     | none => none
   | _ => none
 
 /-- the `while let Some(part) = parts.next()` loop of `parse_time_with_units` -/
-def pairLoop (lit : Str → Option α) (c : Conv α) (total : α) (parts : List Str) : Option α :=
+def pairLoop (c : Conv α) (total : α) (parts : List Str) : Option α :=
   match parts with
   | [] => some total
   | part :: rest =>
@@ -280,18 +285,18 @@ def pairLoop (lit : Str → Option α) (c : Conv α) (total : α) (parts : List 
       match rest with
       | [] => none
       | unit :: rest' =>
-        match pairStep lit c total part unit with
-        | some t => pairLoop lit c t rest'
+        match pairStep c total part unit with
+        | some t => pairLoop c t rest'
         | none => none
     else
-      match pairStep lit c total (part.takeWhile isNumCh) (part.dropWhile isNumCh) with
-      | some t => pairLoop lit c t rest
+      match pairStep c total (part.takeWhile isNumCh) (part.dropWhile isNumCh) with
+      | some t => pairLoop c t rest
       | none => none
 termination_by parts.length
 
 /-- `parse_time_with_units(..).ok()` -/
-def parseTimeWithUnits (lit : Str → Option α) (c : Conv α) (s : Str) : Option Nat :=
-  match pairLoop lit c (Arith.ofNat 0) (words s) with
+def parseTimeWithUnits (c : Conv α) (s : Str) : Option Nat :=
+  match pairLoop c (Arith.ofNat 0) (words s) with
   | some total => roundMinutes total
   | none => none
 
@@ -322,19 +327,19 @@ def commonTime (s : Str) : Option Nat :=
   if s.isEmpty then none else commonLoop false 0 (splitIncl isHM s)
 
 /-- the float fall-back of `parse_time` -/
-def floatFallback (lit : Str → Option α) (s : Str) : Option Nat :=
-  match parseF64 lit s with
+def floatFallback (s : Str) : Option Nat :=
+  match parseF64 (α := α) s with
   | .val x => roundMinutes x
   | _ => none
 
 /-- `parse_time(..).ok()` -/
-def parseTime (lit : Str → Option α) (c : Conv α) (s : Str) : Option Nat :=
+def parseTime (c : Conv α) (s : Str) : Option Nat :=
   if s.isEmpty then none
   else match commonTime s with
     | some n => some n
-    | none => match parseTimeWithUnits lit c s with
+    | none => match parseTimeWithUnits c s with
       | some n => some n
-      | none => floatFallback lit s
+      | none => floatFallback (α := α) s
 
 /-- what the code distinguishes among `MetadataError`s -/
 inductive MErr where
@@ -343,9 +348,9 @@ inductive MErr where
 deriving DecidableEq, Repr
 
 /-- `value_as_minutes` -/
-def valueAsMinutes (lit : Str → Option α) (c : Conv α) (v : Y) : Except MErr Nat :=
+def valueAsMinutes (c : Conv α) (v : Y) : Except MErr Nat :=
   match v with
-  | .str s => match parseTime lit c s with
+  | .str s => match parseTime c s with
     | some n => .ok n
     | none => .error .other
   | _ => match asU32 v with
@@ -358,9 +363,9 @@ inductive RecipeTime where
 deriving DecidableEq, Repr
 
 /-- `.map(|v| value_as_minutes(v, converter)).transpose()` -/
-def optMinutes (lit : Str → Option α) (c : Conv α) : Option Y → Except MErr (Option Nat)
+def optMinutes (c : Conv α) : Option Y → Except MErr (Option Nat)
   | none => .ok none
-  | some v => match valueAsMinutes lit c v with
+  | some v => match valueAsMinutes c v with
     | .ok n => .ok (some n)
     | .error e => .error e
 
@@ -368,20 +373,20 @@ def prepKey : Str := ['p', 'r', 'e', 'p']
 def cookKey : Str := ['c', 'o', 'o', 'k']
 
 /-- the mapping branch of `value_as_time` (fix 0002: a mapping with neither entry is refused) -/
-def composedTime (lit : Str → Option α) (c : Conv α) (m : List (Y × Y)) : Except MErr RecipeTime :=
-  match optMinutes lit c (mapGet prepKey m) with
+def composedTime (c : Conv α) (m : List (Y × Y)) : Except MErr RecipeTime :=
+  match optMinutes c (mapGet prepKey m) with
   | .error e => .error e
-  | .ok prep => match optMinutes lit c (mapGet cookKey m) with
+  | .ok prep => match optMinutes c (mapGet cookKey m) with
     | .error e => .error e
     | .ok cook => if prep.isNone && cook.isNone then .error .other else .ok (.composed prep cook)
 
 /-- `value_as_time` -/
-def valueAsTime (lit : Str → Option α) (c : Conv α) (v : Y) : Except MErr RecipeTime :=
-  match valueAsMinutes lit c v with
+def valueAsTime (c : Conv α) (v : Y) : Except MErr RecipeTime :=
+  match valueAsMinutes c v with
   | .ok t => .ok (.total t)
   | .error .other => .error .other
   | .error .badType => match v with
-    | .map m => composedTime lit c m
+    | .map m => composedTime c m
     | _ => .error .badType
 
 end
@@ -434,7 +439,7 @@ variable {α : Type} [Arith α]
 
 /-- `check_std_entry`: `none` = `Err(_)` (the analysis then warns "Unsupported value for key"),
     `some (some l)` = servings to store for scaling -/
-def checkStdEntry (lit : Str → Option α) (c : Conv α) (alpha : Char → Bool) (key : StdKey) (v : Y) :
+def checkStdEntry (c : Conv α) (alpha : Char → Bool) (key : StdKey) (v : Y) :
     Option (Option (List Nat)) :=
   match key with
   | .servings => match valueAsServings v with
@@ -443,10 +448,10 @@ def checkStdEntry (lit : Str → Option α) (c : Conv α) (alpha : Char → Bool
   | .tags => match valueAsTags v with
     | some _ => some none
     | none => none
-  | .time => match valueAsTime lit c v with
+  | .time => match valueAsTime c v with
     | .ok _ => some none
     | .error _ => none
-  | .prepTime | .cookTime => match valueAsMinutes lit c v with
+  | .prepTime | .cookTime => match valueAsMinutes c v with
     | .ok _ => some none
     | .error _ => none
   | .title | .description => match asStr v with
@@ -463,22 +468,22 @@ def checkStdEntry (lit : Str → Option α) (c : Conv α) (alpha : Char → Bool
 /-- what the `Metadata` accessor of a key returns for the value stored under it, reduced to
     "something / nothing" (`Metadata::{title, description, tags, author, source, time, servings,
     locale}`; `prep time`/`cook time` are read by `Metadata::time` through `as_minutes`) -/
-def accessorGives (lit : Str → Option α) (c : Conv α) (alpha : Char → Bool) (key : StdKey) (v : Y) : Bool :=
+def accessorGives (c : Conv α) (alpha : Char → Bool) (key : StdKey) (v : Y) : Bool :=
   match key with
   | .servings => (valueAsServings v).isSome
   | .tags => (valueAsTags v).isSome
-  | .time => (valueAsTime lit c v).toOption.isSome
-  | .prepTime | .cookTime => (valueAsMinutes lit c v).toOption.isSome
+  | .time => (valueAsTime c v).toOption.isSome
+  | .prepTime | .cookTime => (valueAsMinutes c v).toOption.isSome
   | .title | .description => (asStr v).isSome
   | .locale => (valueAsLocale v).isSome
   | .author | .source => (asNameAndUrl alpha v).isSome
   | .course | .difficulty | .cuisine | .diet | .images => true
 
 /-- the analysis of one metadata entry (`process_frontmatter` / `metadata`): does it warn? -/
-def entryWarns (lit : Str → Option α) (c : Conv α) (alpha : Char → Bool) (key : Str) (v : Y) : Bool :=
+def entryWarns (c : Conv α) (alpha : Char → Bool) (key : Str) (v : Y) : Bool :=
   match StdKey.fromStr key with
   | none => false
-  | some k => (checkStdEntry lit c alpha k v).isNone
+  | some k => (checkStdEntry c alpha k v).isNone
 
 end
 
